@@ -101,8 +101,8 @@ def cases_for(tier):
                   {"prog": "multiloc", "n": 3, "locs": 2, "nlocs": 4}]
     cases = [{"spec": s} for s in specs]
     for c in cases:
-        if c["spec"].get("n", 0) >= 6:
-            c["bound"] = 1
+        if c["spec"].get("n", 0) >= 6 or (c["spec"].get("fix") and tier == "thorough"):
+            c["bound"] = 1  # the partially fixed variants differ from `fixeddirs` only in the binding: one deviation
     return cases
 
 
